@@ -334,10 +334,16 @@ def run_csrf(ctx: ShardCtx, res: ShardResult, w: World) -> None:
             else:
                 t = rng.choice(issued)
             token = t['token']
+            # the server percent-decodes the token it is given: the form it issued (quoted) and the decoded
+            # form are two spellings of ONE token, and using either spends both
+            from urllib.parse import unquote
+            if rng.random() < 0.4:
+                token = unquote(token)
+            canon = unquote(token)
             sender = a
-            expect_ok = (kind == 'use') and token not in used
+            expect_ok = (kind == 'use') and canon not in used
             if kind == 'reuse':
-                expect_ok = False if token in used else (t['service'] == 'streams')
+                expect_ok = False if canon in used else (t['service'] == 'streams')
             if kind == 'cross-cookie':
                 sender = b
             if kind == 'tamper':
@@ -352,8 +358,9 @@ def run_csrf(ctx: ShardCtx, res: ShardResult, w: World) -> None:
                     token = token.swapcase()
                 else:
                     token = token + 'x'
-                if token == t['token']:
+                if unquote(token) == unquote(t['token']):
                     continue
+                canon = unquote(token)
             if kind == 'after-logout':
                 a.request('GET', '/logout')
             title = f'csrf-{i}-{step}-{rng.randrange(10**6)}'
@@ -372,11 +379,11 @@ def run_csrf(ctx: ShardCtx, res: ShardResult, w: World) -> None:
             if accepted and not expect_ok:
                 res.violation(f'csrf-token-accepted-{kind}',
                               f'history {history}: a CSRF token was accepted on step "{kind}"', {'csrf_history': history})
-            if kind == 'use' and not accepted and token not in used:
+            if kind == 'use' and not accepted and canon not in used:
                 res.bucket('csrf_control_not_accepted', r.status_code)
-            # a token is spent once that exact string was presented to the server (a tampered
-            # variant does not spend the original)
-            used.add(token)
+            # a token is spent once it was presented to the server in any spelling (a tampered
+            # variant is another token and does not spend the original)
+            used.add(canon)
             if kind == 'after-logout':
                 w.login_all()
                 a = w.sessions['media']
